@@ -100,9 +100,19 @@ class Conf:
                             self.coredata.optstore.update_project_options(oi.options, sub)
                             self.coredata.options_files[sub] = (opfile, ophash)
                 else:
-                    opfile = os.path.join(self.source_dir, 'meson.options')
+                    # The option file did not exist or has been removed: look
+                    # for one where this (sub)project keeps it.
+                    if conf_options is not None:
+                        opdir = os.path.dirname(conf_options[0])
+                    elif sub == '':
+                        opdir = self.source_dir
+                    else:
+                        # No option file was recorded for this subproject and
+                        # its source directory is not known here.
+                        continue
+                    opfile = os.path.join(opdir, 'meson.options')
                     if not os.path.exists(opfile):
-                        opfile = os.path.join(self.source_dir, 'meson_options.txt')
+                        opfile = os.path.join(opdir, 'meson_options.txt')
                     if os.path.exists(opfile):
                         oi = OptionInterpreter(self.coredata.optstore, sub)
                         oi.process(opfile)
